@@ -897,6 +897,16 @@ class Ctx(object):
         self.solver_time += v.secs
         mv = None
         if v.status == "sat":
+            # prefer a NON-DEGENERATE counter-model (pairwise distinct, non-zero inputs): a model that gives every
+            # free input the same value often makes the concrete replay pass by coincidence
+            try:
+                nums = [_real(z) for z in self.symbols.values() if z.sort() != z3.BoolSort()]
+                extra = ([z3.Distinct(*nums)] if len(nums) > 1 else []) + [z3.And(r != 0, r != 1) for r in nums]
+                vd = solve(fmls + ax + extra, timeout_ms=min(3000, self.ex.verdict_timeout_ms))
+                if vd.status == "sat":
+                    v.model = vd.model
+            except z3.Z3Exception:
+                pass
             mv = self._model_vals(v.model, watch)
         ob = Obligation(label, v.status, v.secs, v.how, mv)
         self.obligations.append(ob)
